@@ -1534,7 +1534,17 @@ class DiameterMessage:
 
 
     def __setitem__(self, idx: int, value: DiameterAVP) -> None:
+        previous = self._avps[idx]
         self._avps[idx] = value
+
+        #: The attribute which referred to the replaced DiameterAVP object 
+        #: now refers to the new one and the length follows the new content.
+        for key, item in self.__dict__.items():
+            if item is previous and "_avp" in key and key != "_avps":
+                self.__dict__[key] = value
+                break
+
+        self.refresh()
 
 
     @property
